@@ -36,7 +36,10 @@ func CopyTree(src, dst string) error {
 		}
 		rel, _ := filepath.Rel(src, p)
 		if rel == ".git" {
-			return filepath.SkipDir
+			if info.IsDir() {
+				return filepath.SkipDir
+			}
+			return nil // a worktree's .git is a file: skipping "the directory" would skip the whole tree
 		}
 		to := filepath.Join(dst, rel)
 		if info.IsDir() {
